@@ -571,7 +571,7 @@ def run(ctx):
     bound = [r for r in read_jsonl(os.path.join(ctx.work, "c18_bound_out.jsonl")) if r.get("Bound")]
     for r in bound:
         if r["Dup"] > 0 or r["Count"] != r["Published"]:
-            report("deadletter:duplicate", "burst of %d failed coalesced batches: %d duplicates, count %d vs %d published" % (r["Sent"], r["Dup"], r["Count"], r["Published"]), r)
+            report("deadletter:duplicate" if r["Dup"] > 0 else "deadletter:counter-differs-from-number-published", "burst of %d failed coalesced batches: %d duplicates, count %d vs %d published" % (r["Sent"], r["Dup"], r["Count"], r["Published"]), r)
         if r["Published"] < r["Sent"]:
             report(SIG_QUEUE, "real drain goroutine: burst of %d failed one-message coalesced batches, only %d dead letters (first missing id %d); queue capacity %d" %
                    (r["Sent"], r["Published"], r["FirstMissing"], r["QueueCap"]), r)
